@@ -24,6 +24,11 @@ status.objectRefs is empty), over an abstract API server:
 
 The store carries the log of non-dry-run writes, so "the store is unchanged"
 includes "no real write was even attempted".
+
+Third-party interference (section "third-party interference with Establish" below):
+`establishI` / `reconcileRevI` / `runHistoryI` are the same code with another client
+deleting, re-creating or re-owning objects after the validate phase, right before
+each real write, and between reconciles; `establish` is `establishI … Interf.none`.
 -/
 namespace Xp.C16
 
@@ -470,6 +475,125 @@ own desired state at that time, faults and goroutine orders -/
 def runHistory : Sys → List (Rev × Env) → Sys
   | sys, [] => sys
   | sys, (r, e) :: rest => runHistory (reconcileRev sys r e).1 rest
+
+/-! ### third-party interference with Establish
+
+Establish is not alone in the cluster: between its calls the garbage collector, an
+administrator or another controller may delete an object, re-create it, or rewrite
+its owner references. `Act` is one such third-party write; the server gives a
+third-party `put` a fresh resourceVersion like any other write, and third-party
+writes are not part of the revision's own write log.
+
+`Interf` places third-party writes inside one Establish call: `mid` after the
+validate phase and before the establish phase, `pre i` immediately before the real
+(non-dry-run) write issued by the goroutine of object `i` (that is also "between the
+individual writes": anything may happen between the write of one object and the
+next). The code under interference is the same code: `establishOneI` … `establishI`
+repeat `establishOne` … `establish` literally, except for the store the real write
+meets. `Interf.none` gives back `establish` (theorem `establishI_no_interference`). -/
+
+/-- one write of a third party -/
+inductive Act where
+  /-- delete the object with this key (nothing happens when it is absent) -/
+  | del (k : String)
+  /-- create the object, or replace the stored object of the same key, with these owner
+  references and content (`o.rv` is ignored: the server assigns a fresh resourceVersion) -/
+  | put (o : Obj)
+  deriving DecidableEq, Repr
+
+def applyAct (s : Store) : Act → Store
+  | .del k => { s with objs := s.objs.filter fun x => x.key != k }
+  | .put o => { s with objs := (s.objs.filter fun x => x.key != o.key) ++ [{ o with rv := s.nextRv }],
+                       nextRv := s.nextRv + 1 }
+
+def applyActs (s : Store) (as : List Act) : Store := as.foldl applyAct s
+
+/-- third-party writes interleaved with one Establish call -/
+structure Interf where
+  /-- after the validate phase, before the establish phase -/
+  mid : List Act := []
+  /-- immediately before the real write of the goroutine of object `i` -/
+  pre : Nat → List Act := fun _ => []
+
+/-- nobody interferes -/
+def Interf.none : Interf := {}
+
+/-- one goroutine of `establish`, the third party writing `tp.pre i` right before its API call -/
+def establishOneI (rejects : Obj → Bool) (fault : Fault) (tp : Interf) (p : Parent) (control : Bool)
+    (s : Store) (i : Nat) (cd : CD) : Store × R Ref :=
+  match cd.current with
+  | none =>
+    if control then
+      liftW ⟨cd.desired.key, false⟩
+        (apiCreate rejects false (fault i .real) (applyActs s (tp.pre i)) { cd.desired with owners := createRefs p })
+    else (s, .ok ⟨cd.desired.key, true⟩)
+  | some cur =>
+    match updateSub p control cur cd.desired with
+    | .error e => (s, .err e)
+    | .ok sub => liftW ⟨cd.desired.key, true⟩ (apiUpdate rejects false (fault i .real) (applyActs s (tp.pre i)) sub)
+
+def establishAllI (rejects : Obj → Bool) (fault : Fault) (tp : Interf) (p : Parent) (control : Bool) :
+    Store → List (Nat × CD) → Store × R (List Ref)
+  | s, [] => (s, .ok [])
+  | s, (i, cd) :: rest =>
+    match establishOneI rejects fault tp p control s i cd with
+    | (s1, .crash) => (s1, .crash)
+    | (s1, .err e) =>
+      match establishAllI rejects fault tp p control s1 rest with
+      | (s2, .crash) => (s2, .crash)
+      | (s2, _) => (s2, .err e)
+    | (s1, .ok k) =>
+      match establishAllI rejects fault tp p control s1 rest with
+      | (s2, .ok ks) => (s2, .ok (k :: ks))
+      | (s2, .err e) => (s2, .err e)
+      | (s2, .crash) => (s2, .crash)
+
+/-- `validate`, the third party's `tp.mid`, then `establish` under `tp.pre` -/
+def establishCoreI (rejects : Obj → Bool) (fault : Fault) (tp : Interf) (p : Parent) (control : Bool)
+    (s : Store) (objs : List Desired) (vorder eorder : List Nat) : Store × R (List Ref) :=
+  match validateAll rejects fault p control s (pick objs vorder) with
+  | (s1, .ok cds) => establishAllI rejects fault tp p control (applyActs s1 tp.mid) (pickCD cds eorder)
+  | (s1, .err e) => (s1, .err e)
+  | (s1, .crash) => (s1, .crash)
+
+/-- `APIEstablisher.Establish` with a third party writing in between -/
+def establishI (rejects : Obj → Bool) (fault : Fault) (tp : Interf) (p : Parent) (control : Bool)
+    (s : Store) (objs : List Desired) (vorder eorder : List Nat) : Store × R (List Ref) :=
+  match getCert fault p control with
+  | .err e => (s, .err e)
+  | .crash => (s, .crash)
+  | .ok _ => establishCoreI rejects fault tp p control s objs vorder eorder
+
+/-- `establishAndRecord` under interference -/
+def establishAndRecordI (sys : Sys) (s : Store) (r : Rev) (e : Env) (tp : Interf) : Sys × R Unit :=
+  match establishI e.rejects e.fault tp r.parent r.active s r.objs e.vorder e.eorder with
+  | (s', .ok ks) => (⟨s', setRefs sys.refs r.parent.uid (e.sortRefs ks)⟩, .ok ())
+  | (s', .err x) => (⟨s', sys.refs⟩, .err x)
+  | (s', .crash) => (⟨s', sys.refs⟩, .crash)
+
+/-- `reconcileRev` with a third party interfering with its Establish call -/
+def reconcileRevI (sys : Sys) (r : Rev) (e : Env) (tp : Interf) : Sys × R Unit :=
+  if r.active then establishAndRecordI sys sys.store r e tp
+  else
+    match release e.rejects e.fault r.parent e.ran sys.store (sys.refs r.parent.uid) e.rorder with
+    | (s1, .ok ()) =>
+      if (sys.refs r.parent.uid).length > 0 then (⟨s1, sys.refs⟩, .ok ())
+      else establishAndRecordI sys s1 r e tp
+    | (s1, .err x) => (⟨s1, sys.refs⟩, .err x)
+    | (s1, .crash) => (⟨s1, sys.refs⟩, .crash)
+
+/-- one step of a history under interference: the third party writes `before`, then the
+revision is reconciled with `tp` interleaved into its Establish call -/
+structure HStep where
+  before : List Act
+  rev : Rev
+  env : Env
+  tp : Interf
+
+def runHistoryI : Sys → List HStep → Sys
+  | sys, [] => sys
+  | sys, x :: rest =>
+    runHistoryI (reconcileRevI ⟨applyActs sys.store x.before, sys.refs⟩ x.rev x.env x.tp).1 rest
 
 /-! ### Kubernetes garbage collection (simstore `GCStep`) -/
 
